@@ -1040,6 +1040,9 @@ func init() {
 				if err := refusalGrid(rep, s); err != nil {
 					return err
 				}
+				if err := stringSliceGrid(rep); err != nil {
+					return err
+				}
 				continue
 			}
 			wrap := map[string][2]string{"or": {`["or", [`, `]]`}, "and": {`["and", [`, `]]`}, "all": {`["all", ".l", `, `]`}, "any": {`["any", ".l", `, `]`}, "not": {`["not", ["not", `, `]]`}}[c.Wrap]
@@ -1109,6 +1112,71 @@ func init() {
 // refusalGrid: every statement form over selectors that reach before the start / past the end of what the data holds, against
 // data whose collections are empty, short, missing or of another kind: the matcher answers (never crashes), a failed match
 // names the statement that failed, and the verifier turns it into an error.
+// stringSliceGrid: an argument string is any byte string (DAG-CBOR does not check UTF-8). Every string of up to 4 pieces out
+// of one-byte, two-, three- and four-byte characters and of bytes that are no character at all (a stray 0xff, a lead byte
+// without its continuation, an encoded surrogate, an overlong form), sliced and indexed by every selector of a small set,
+// through Selector.Select and through Policy.Match: a value or an error, never a crash.
+func stringSliceGrid(rep *Report) error {
+	pieces := []string{"a", "\u00e9", "\u20ac", "\U0001F600", "\xff", "\xc3", "\xed\xa0\x80", "\xc0\xaf", "\xf0\x9f"}
+	strs := []string{""}
+	for lo, n := 0, 0; n < 4; n++ {
+		hi := len(strs)
+		for _, s := range strs[lo:hi] {
+			for _, p := range pieces {
+				strs = append(strs, s+p)
+			}
+		}
+		lo = hi
+	}
+	texts := []string{".s[1:]", ".s[:-1]", ".s[-2:]", ".s[1:2]", ".s[0:99]", ".s[-1:]", ".s[2:]", ".s[:1]", ".s[-3:-1]", ".s[3:]", ".s[:]?", ".s[1:][1:]", ".s[-99:2]"}
+	var sels []selector.Selector
+	var pols []policy.Policy
+	for _, t := range texts {
+		sel, err := selector.Parse(t)
+		if err != nil {
+			if t == ".s[:]?" {
+				continue
+			}
+			return fmt.Errorf("string slice grid: %s: %w", t, err)
+		}
+		pol, err := policy.FromDagJson(`[["==", ` + strconv.Quote(t) + `, "x"], ["like", ` + strconv.Quote(t) + `, "*a"]]`)
+		if err != nil {
+			return fmt.Errorf("string slice grid: %s: %w", t, err)
+		}
+		sels, pols = append(sels, sel), append(pols, pol)
+	}
+	for _, str := range strs {
+		d := mapNode(map[string]ipld.Node{"s": basicnode.NewString(str)})
+		for i := range sels {
+			rep.Evaluations++
+			msg := func() (msg string) {
+				defer func() {
+					if x := recover(); x != nil {
+						msg = fmt.Sprintf("panic: %v", x)
+					}
+				}()
+				// (a byte that is no character comes out as U+FFFD, three bytes: the result is bounded by three times the input)
+				if n, err := sels[i].Select(d); err == nil && n != nil && n.Kind() == datamodel.Kind_String {
+					if out, _ := n.AsString(); len(out) > 3*len(str) {
+						return fmt.Sprintf("a slice of %d bytes out of a string of %d bytes", len(out), len(str))
+					}
+				}
+				pols[i].Match(d)
+				return ""
+			}()
+			if msg != "" {
+				rep.violation(map[string]any{"selector": sels[i].String(), "string_hex": fmt.Sprintf("%x", str)}, "a value or an error", msg,
+					"slicing a string argument that is not UTF-8 throughout crashed")
+				break
+			}
+		}
+		if len(str) > 2 {
+			rep.nontrivial("slice" + str)
+		}
+	}
+	return nil
+}
+
 func refusalGrid(rep *Report, s *principal) error {
 	sels := []string{".", ".l", ".l[0]", ".l[-1]", ".l[-3]", ".l[5]", ".l[-1]?", ".l[-3]?", ".b[-1]", ".b[-9]?", ".b[0]", ".l[0][-5]?", ".l[1:]", ".l[-9:9]",
 		".m.x", ".m?.x", ".s[-4:]", ".s[3:2]", ".l[]", ".m[]", ".q?", ".q"}
